@@ -31,6 +31,8 @@
 
 using namespace amgcl;
 using vf::J; using vf::Rng; using vf::Case;
+// set-valued observations are comma lists: keep commas out of the tokens
+static std::string tok(std::string s) { for (auto &ch : s) if (ch == ',') ch = ';'; return s; }
 typedef long double LD; typedef std::complex<LD> CL;
 
 //---------------------------------------------------------------------------
@@ -119,7 +121,7 @@ static bool cmp(Case &c, const std::string &key, const std::string &what, const 
             if (ref.acc[i] > 0) worst = std::max(worst, (double)(d / ((LD)eps * ref.acc[i])));
         }
     }
-    if (!exact) vf::obs_max("max_err_over_eps_abs_sum", worst);
+    if (!exact && ok) vf::obs_max("max_err_over_eps_abs_sum", worst);     // (of the comparisons that held: how much of the bound is used)
     vf::obs_sum("calls_compared");
     return c.check(ok, key, what + (exact ? " (integer-valued operands: exact equality demanded)" : " (outside the forward rounding bound)"),
                    J().n("component", bad).n("got_re", gv).n("ref_re", rv).n("got_im", gi).n("ref_im", ri).n("bound", bd).n("size", got.size()).n("ref_size", ref.v.size()));
@@ -236,7 +238,7 @@ template <class V> void spmv_case(long idx, long rep, const std::string &tn) {
     check_residual<std::vector<R>, std::vector<R>, std::vector<R>>(c, "builtin_stdvector", M, F, x, y0, genvec<R>(n, r, exact), exact, eps, cf);
     if (A.col.size()) c.nontrivial();
     vf::sample("spmv", J().s("type", tn).n("n", n).n("m", m).n("nnz", A.col.size()).bl("exact", exact).n("threads", omp_get_max_threads()));
-    vf::obs_add("value_types_seen", tn);
+    vf::obs_add("value_types_seen", tok(tn));
 }
 
 //---------------------------------------------------------------------------
